@@ -21,7 +21,7 @@ def respond (line : String) : String :=
   | ["boots", l, e] =>
     match l.toInt?, e.toNat? with
     | some l, some e =>
-      match bootsOutcome l e with
+      match bootsOutcome true l e with
       | .trap => "refuse"
       | .size s => s!"size {s}"
     | _, _ => "!badreq"
